@@ -1,6 +1,8 @@
 package rules
 
 import (
+	"sort"
+
 	"github.com/vektah/gqlparser/v2/ast"
 
 	//nolint:staticcheck // Validator rules each use dot imports for convenience.
@@ -55,6 +57,9 @@ func ruleFuncKnownTypeNames(observers *Events, addError AddErrFunc, disableSugge
 			for _, t := range walker.Schema.Types {
 				possibleTypes = append(possibleTypes, t.Name)
 			}
+			// map iteration order is random: equally close candidates would be
+			// suggested in a different order (and a different selection) on every run
+			sort.Strings(possibleTypes)
 
 			addError(
 				Message(`Unknown type "%s".`, typeName),
